@@ -27,7 +27,7 @@ BUDGET = {
 }
 REQUIRED_PROBES = ["kwargs_call", "mixed_call_rejected", "dotted_param", "reserved_param", "repeated_param", "map_param",
                    "message_param", "falsy_presence_value", "foreign_request", "async_kwargs", "subset_of_params",
-                   "signature_order_checked"]
+                   "signature_order_checked", "concurrent_flattened_callers", "flattened_call_retried_while_others_run"]
 
 
 def gen_spec(rng):
@@ -94,6 +94,33 @@ def gen_scenarios(spec, rng, n):
     out = []
     for i in range(n):
         client = rng.choice(["sync", "async"])
+        if rng.random() < 0.3:
+            # CONCURRENT flattened callers of one client (asyncio tasks, or real threads for the sync client) with
+            # retryable faults and real backoff windows: every attempt of every call must carry ITS caller's arguments
+            nact = rng.choice([2, 2, 3])
+            actors = [{"start": rng.choice([0.0, 0.0, 0.05, 0.4]) if a else 0.0, "ops": []} for a in range(nact)]
+            prev = None
+            for j in range(nact + rng.randint(0, 2)):
+                fs, s, m = rng.choice(cands) if prev is None or rng.random() < 0.5 else prev
+                prev = (fs, s, m)
+                op = gen_ops(spec, rng, codec, fs, s, m, f"o{j}")[0]          # the kwargs form only
+                T, pol, retry_T = c09.call_policy(spec, fs, s, m, {})
+                op["call"] = {}
+                if pol and (retry_T is None or retry_T >= 20.0) and rng.random() < 0.7:
+                    op["faults"] = [rng.choice(pol["codes"]) for _ in range(rng.randint(1, 2))]
+                    op["call"] = {}                                           # default retry: the faults are retried
+                else:
+                    op["call"] = {"retry": "none"}
+                op["lat"] = rng.choice([0.0, 0.01, 0.2, 1.0])
+                if T is not None:
+                    op["lat"] = min(op["lat"], T / 4)       # the reply always beats the attempt deadline
+                actors[j % nact]["ops"].append(op)
+            sc = {"client": client, "actors": [a for a in actors if a["ops"]], "jitter_default": rng.choice([0.5, 1.0])}
+            if client == "sync" and len(sc["actors"]) > 1:
+                sc["threads"] = True
+                sc["sched_seed"] = rng.randrange(2 ** 32)
+            out.append(sc)
+            continue
         ops = []
         for j in range(rng.randint(1, 3)):
             fs, s, m = rng.choice(cands)
@@ -234,6 +261,11 @@ def server_factory(run):
             return {"code": "UNIMPLEMENTED"}
         _, m, _ = sm
         out = m["output"]
+        faults = op.get("faults") or []
+        if call["n"] <= len(faults):
+            return {"code": faults[call["n"] - 1], "lat": 0.0}          # (faults stop after the script)
+        if op.get("lat"):
+            return dict(_reply(codec, m), lat=op["lat"])
         if m.get("server_streaming"):
             return {"msgs": []}
         if out == ".google.longrunning.Operation":
@@ -243,6 +275,18 @@ def server_factory(run):
             return {"msg": o}
         return {"msg": codec.cls(out)()}
     return serve
+
+
+def _reply(codec, m):
+    out = m["output"]
+    if m.get("server_streaming"):
+        return {"msgs": []}
+    if out == ".google.longrunning.Operation":
+        o = codec.cls("google.longrunning.Operation")()
+        o.name = "operations/x"
+        o.done = False
+        return {"msg": o}
+    return {"msg": codec.cls(out)()}
 
 
 def execute(world, scenario):
@@ -302,6 +346,15 @@ def judge(spec, scenario, history):
             return V("nothing_sent", "the call returned but nothing was sent")
         exp = oracle.expected_request(codec, m, op)
         got = codec.parse(m["input"], bytes.fromhex(attempts[0]["reqs"][0]))
+        if len(scenario["actors"]) > 1:
+            _bump(probes, "concurrent_flattened_callers")
+            if len(attempts) > 1:
+                _bump(probes, "flattened_call_retried_while_others_run")
+            for a in attempts[1:]:
+                g2 = codec.parse(m["input"], bytes.fromhex(a["reqs"][0]))
+                if g2 != exp:
+                    return V("kwargs_request_mismatch", f"attempt {a['n']} of a flattened call sent {str(g2)[:300]!r}; the equivalent request is "
+                             f"{str(exp)[:300]!r} (other callers of the same client were in flight)")
         if op["form"] == "kwargs":
             _bump(probes, "kwargs_call")
             if scenario["client"] == "async":
